@@ -79,16 +79,9 @@ def c18_execute(spec, workdir):
     if spec.get("others"):
         res["stats"]["probe:multi_tenant_runs"] = 1
     if res["violation"] is not None and not spec.get("pinned", True):
-        # classify: does the violation survive with the global RNG pinned?
-        spec2 = dict(spec, pinned=True)
-        sims2 = _tenants(spec2, workdir + "-p", lambda: [oracle_c18.C18Oracle()], True)
-        res2 = engine_data.run_multi(sims2, spec.get("schedule"))
-        shutil.rmtree(workdir + "-p", ignore_errors=True)
-        if res2["violation"] is None:
-            v = res["violation"]
-            d = dict(v.get("detail", {}))
-            d["unpinned_kind"] = v["kind"]
-            res["violation"] = {"step": v["step"], "kind": "rng_dependent_result", "detail": d}
+        # classification (does the violation survive with the global RNG pinned?) needs a second
+        # execution from pristine process state: requested from the runner, see c18_classify
+        res["rerun_pinned"] = True
     if res["violation"] is not None:
         vspec = spec
         if res["violation"].get("tenant"):
@@ -366,11 +359,8 @@ def c18cli_execute(spec, workdir):
     if v is not None:
         argv = v.get("detail", {}).get("argv", [])
         rng_dep = False
-        if v["kind"] == "repeat_differs" and not spec.get("pinned", True):
-            sim2 = engine_cli.CliSim(dict(spec, pinned=True, fresh=False), workdir + "-p")
-            res2 = sim2.run()
-            shutil.rmtree(workdir + "-p", ignore_errors=True)
-            rng_dep = res2["violation"] is None
+        if v["kind"] == "repeat_differs" and not spec.get("pinned", True) and not spec.get("_classifying"):
+            res["rerun_pinned"] = True
         if v["kind"] in ("fresh_process_differs", "fresh_vs_session_differs"):
             # unseeded global RNG differs between interpreters by construction
             w = spec["world"]["variable"]
@@ -389,6 +379,33 @@ def c18cli_execute(spec, workdir):
         res["violation"] = v
     res["ilv"] = _cli_ilv(spec)
     res["nontrivial"] = res["stats"].get("rel_repeat_both_ok", 0) >= 1
+    return res
+
+
+def c18_classify(spec, res, res_pinned):
+    """An unpinned run violated; `res_pinned` is the same spec executed with the global RNG pinned, from
+    pristine process state.  If the violation is gone it was RNG dependence."""
+    if res_pinned.get("violation") is not None:
+        return res
+    v = res["violation"]
+    d = dict(v.get("detail", {}))
+    d["unpinned_kind"] = v["kind"]
+    if spec.get("engine") == "B":
+        argv = d.get("argv", [])
+        w = spec["world"]["variable"]
+        if engine_cli.uses_pit(argv) and (w.get("x0") is not None or w.get("x1") is not None):
+            sig = "rng_dependent_result field=Pit requires=x0|x1"
+        else:
+            sig = "rng_dependent_result cli metric=%s" % engine_cli.metric_of(argv)
+        res["violation"] = {"step": v["step"], "kind": "rng_dependent_result", "detail": d, "signature": sig}
+    else:
+        nv = {"step": v["step"], "kind": "rng_dependent_result", "detail": d}
+        vspec = spec
+        if v.get("tenant"):
+            nv["tenant"] = v["tenant"]
+            vspec = dict(spec, world=spec["others"][v["tenant"] - 1]["world"])
+        nv["signature"] = oracle_c18.signature(vspec, nv)
+        res["violation"] = nv
     return res
 
 
@@ -441,7 +458,7 @@ PROPS = {
                     "are repeated on a twin world with one input's forecast values changed; "
                     "non-trivial = at least one pair of sibling responses from different inputs was compared; "
                     "distinct = distinct run digests among non-trivial runs"},
-    "C18": {"gen": c18_gen_mixed, "execute": c18_execute_mixed, "engine": "A+B",
+    "C18": {"gen": c18_gen_mixed, "execute": c18_execute_mixed, "classify": c18_classify, "engine": "A+B",
             "runs": {"quick": 3000, "thorough": 120000},
             "rule": "one evaluation = one seeded simulated session (generated world of 1-4 inputs +/- climatology "
                     "materialised as text/NetCDF files, constructor configuration, 2-12 (quick) / up to 40 (thorough) "
